@@ -162,9 +162,14 @@ package parser
 //@   assigns all(ast.CommentGroup.List), all(ast.GenDecl.Doc), all(ast.FuncDecl.Doc), all(ast.TypeSpec.Doc), all(ast.Field.Doc)
 //@   ensures {C14,C08,C17,C03} err == nil ==> len(r) == msetLen(ifaceMethods(intf))
 //@   ensures {C14,C08,C17} err == nil ==> forall(i, 0, len(r), r[i] != nil && r[i].Method == nthMethod(intf, i) && option.optsInv(r[i].Opts))
+//@   ensures {C14,C08} err == nil ==> forall(i, 0, len(r), wfME(r[i]))
+//@   ensures {C14,C06} err == nil ==> forall(i, 0, len(r), convOK(r[i]))
+//@   reveal convOK
 //@   ensures {C14} err != nil ==> r == nil
 //@   loop 1 invariant 0 <= i && i <= msetLen(mset) && len(methods) <= i && fresh(methods) && sameOld(methods)
 //@   loop 1 invariant len(methods) == i ==> forall(j, 0, i, methods[j] != nil && methods[j].Method == nthMethod(intf, j) && option.optsInv(methods[j].Opts))
+//@   loop 1 invariant forall(j, 0, len(methods), wfME(methods[j]))
+//@   loop 1 invariant forall(j, 0, len(methods), convOK(methods[j]))
 //@
 //@ global intfName: intfName == "Convergen"
 //@ spec inFile(p *Parser, o types.Object) bool = positionOf(p.fset, objPos(o)).Filename == p.srcPath
@@ -190,3 +195,33 @@ package parser
 //@   loop 1 invariant $k <= scopeLen(scope) && fresh(entries) && sameOld(entries)
 //@   loop 1 invariant forall(i, 0, len(entries), wfIntf(entries[i]) && isIface(entries[i].intf) && inFile(p, entries[i].intf))
 //@   loop 1 invariant forall(i, 0, len(entries), len(entries[i].opts.SkipFields) == len(p.opts.SkipFields) && entries[i].opts.PreProcess == p.opts.PreProcess && entries[i].opts.PostProcess == p.opts.PostProcess)
+//@
+//@ spec opaque convOK(m *bmodel.MethodEntry) bool = option.convInv(m.Opts)
+//@ spec wfME(m *bmodel.MethodEntry) bool =
+//@     bmodel.wfMethod(m) && bmodel.mNPar(m) > 0 && bmodel.mNRes(m) > 0
+//@
+//@ func (*Parser).resolveConverters(p, generatingMethods, conv) (err)
+//@   requires wfParser(p) && option.nmInv(conv.m) && forall(i, 0, len(generatingMethods), wfME(generatingMethods[i]))
+//@   effects log
+//@   assigns conv.argType, conv.retType, conv.retError
+//@   ensures {C06,C14} err == nil ==> conv.argType != nil && conv.retType != nil
+//@   ensures {C14,C03} err != nil ==> hasPrefix(errmsg(err), posText(p.fset, conv.m.pos) + ": ")
+//@   loop 1 invariant $k <= len(generatingMethods) && (err == nil || hasPrefix(errmsg(err), posText(p.fset, conv.m.pos) + ": "))
+//@
+//@ func (*Parser).Parse(p) (r, err)
+//@   requires wfP(p)
+//@   effects log, stdout, stderr, random
+//@   assigns p.intfEntries, all(ast.CommentGroup.List), all(ast.GenDecl.Doc), all(ast.FuncDecl.Doc), all(ast.TypeSpec.Doc), all(ast.Field.Doc), all(option.FieldConverter.argType), all(option.FieldConverter.retType), all(option.FieldConverter.retError)
+//@   ensures {C17,C08,C14,C03} err == nil ==> len(r) == len(p.intfEntries) && len(r) > 0
+//@   ensures {C17,C08,C13} err == nil ==> forall(i, 0, len(r), r[i] != nil && r[i].Marker == p.intfEntries[i].marker && len(r[i].Methods) == msetLen(ifaceMethods(p.intfEntries[i])))
+//@   ensures {C17,C14} err == nil ==> forall(i, 0, len(p.intfEntries), wfIntf(p.intfEntries[i]) && isIface(p.intfEntries[i].intf) && inFile(p, p.intfEntries[i].intf))
+//@   ensures {C14} err != nil ==> r == nil
+//@   loop 1 invariant $k <= len(entries) && len(list) == $k && (list == nil || fresh(list)) && sameOld(list)
+//@   loop 1 invariant (allMethods == nil || fresh(allMethods)) && sameOld(allMethods)
+//@   loop 1 invariant forall(i, 0, len(entries), wfIntf(entries[i]) && isIface(entries[i].intf) && inFile(p, entries[i].intf))
+//@   loop 1 invariant forall(i, 0, $k, allocated(list[i]) && list[i] != nil && list[i].Marker == entries[i].marker && len(list[i].Methods) == msetLen(ifaceMethods(entries[i])))
+//@   loop 1 invariant forall(i, 0, len(allMethods), wfME(allMethods[i]))
+//@   loop 1 invariant forall(i, 0, len(allMethods), convOK(allMethods[i]))
+//@   reveal convOK
+//@   loop 2 invariant $k <= len(allMethods)
+//@   loop 3 invariant $k <= len(method.Opts.Converters)
